@@ -9,6 +9,8 @@
 (*                     / scan / SIZ / COD / QCD / SOT bodies, table ids)   *)
 (*                     and a boundary set elsewhere (Full = TRUE: always   *)
 (*                     the full range)                                      *)
+(*   Shift(D) (JPEG 2000: image and tile grid moved by D on the reference  *)
+(*   grid, declared size unchanged),                                       *)
 (*   Truncate(n), RandomTail(n), SetTwo(o1, o2), FrameInfo(i) (codec-level *)
 (*   entries: zero and mismatching Rows/Columns/BitsAllocated/SPP/Planar). *)
 (* The outcome relation (outcome in {ok, error}, budget) is RobustTrace's. *)
@@ -23,6 +25,9 @@ Boundary == {0, 1, 2, 3, 4, 7, 8, 9, 15, 16, 17, 31, 32, 33, 63, 64, 65, 127, 12
 Small == {0, 1, 2, 8, 64, 128, 254, 255}
 \* values tried on structural bytes in the quick tier: every low value (selectors, counts, nibbles) and a spread of high ones
 Wide == (0..40) \cup {47, 48, 63, 64, 65, 79, 80, 81, 95, 96, 111, 112, 127, 128, 129, 143, 144, 145, 159, 160, 175, 176, 191, 192, 193, 207, 208, 223, 224, 239, 240, 241, 247, 248, 253, 254, 255}
+\* displacements of the image and tile grid on the reference grid (A.5.1: XOsiz, YOsiz, XTOsiz, YTOsiz): next to the origin,
+\* odd, next to and beyond the default precinct size 2^15, far away
+Shifts == <<1, 3, 100, 4095, 32668, 32768, 163840, 1048476>>
 IsJ2k(e) == e.api \in {"j2k", "j2kht"} \/ (Len(e.head) >= 2 /\ e.head[1] = 255 /\ e.head[2] = 79)
 IsRle(e) == e.api = "codec:rle"
 
@@ -65,7 +70,8 @@ Next ==
   /\ LET e == T(t)  he == HdrEnd(e)  n == Len(e.head) IN
      CASE phase = "hdr" ->
             IF o < he /\ o <= n
-            THEN /\ ((Full \/ ~Large(e) \/ o % 4 = 0) => Line([t |-> t, k |-> "set", o |-> o - 1, v |-> IF Large(e) /\ ~Full THEN SetToSeq(Small) ELSE Vals(e, o)]))
+            THEN /\ (o = 1 /\ IsJ2k(e) => Line([t |-> t, k |-> "shift", o |-> 0, v |-> Shifts]))
+                 /\ ((Full \/ ~Large(e) \/ o % 4 = 0) => Line([t |-> t, k |-> "set", o |-> o - 1, v |-> IF Large(e) /\ ~Full THEN SetToSeq(Small) ELSE Vals(e, o)]))
                  /\ Line([t |-> t, k |-> "trunc", o |-> o - 1])
                  /\ o' = o + 1 /\ UNCHANGED <<t, phase>>
             ELSE o' = he /\ phase' = "body" /\ UNCHANGED t
